@@ -85,6 +85,12 @@ class Device:
             return
         if not unsolicited:
             self.n_replies += 1
+        if line.startswith("partial:"):
+            # the beginning of a line whose rest never arrives on this link
+            data = line[8:].encode("utf-8")
+            sched.S.emit("dev_partial", data=data.hex())
+            self._feed(data)
+            return
         if line.startswith("hex:"):
             data = bytes.fromhex(line[4:]) + b"\r\n"          # raw bytes (not necessarily UTF-8) followed by the terminator
         else:
